@@ -139,3 +139,40 @@ def yielding(base):
         st.lists(st.sampled_from([0, 0, 1, 1, 2, 3, 4, 5, 6]), min_size=1, max_size=12).filter(any),
     )
     return st.builds(lambda case, p: dict(case, yield_send=p), base, pattern)
+
+
+@st.composite
+def abandon_case(draw, tier="quick"):
+    """Focused on FORWARD-TSN itself (C06): two to four partially reliable channels, most of them ordered, plus sometimes a
+    reliable one; a fault-free opening; then small messages spread over several retransmission time-outs on alternating
+    channels while one direction loses a third to two thirds of its datagrams (so that DATA, the FORWARD-TSN announcing its
+    abandonment and the SACK answering it are each lost now and then, and a second message is abandoned on another stream
+    while the first FORWARD-TSN is still unacknowledged)."""
+    nchan = draw(st.integers(2, 4))
+    creates = []
+    for i in range(nchan):
+        op = {"op": "create", "side": draw(st.integers(0, 1)), "ordered": draw(st.sampled_from([True, True, True, False])), "mr": None, "mlt": None,
+              "label": "", "protocol": "", "dt": 0}
+        if i == nchan - 1 and nchan > 2 and draw(st.booleans()):
+            pass  # one reliable channel rides along
+        elif draw(st.booleans()):
+            op["mr"] = draw(st.sampled_from([0, 0, 1]))
+        else:
+            op["mlt"] = draw(st.sampled_from([1, 50, 500, 1500]))
+        creates.append(op)
+    ops = creates + [{"op": "await_open", "max_ms": 60000}]
+    side = draw(st.integers(0, 1))
+    sends = []
+    for i in range(draw(st.integers(6, 30 if tier == "quick" else 50))):
+        sends.append({"op": "send", "ch": draw(st.integers(0, nchan - 1)), "side": side if draw(st.integers(0, 5)) else 1 - side,
+                      "kind": "bytes", "len": draw(st.sampled_from([1, 10, 100, 1200, 2400])), "fill": i,
+                      "dt": draw(st.sampled_from([0, 0, 20, 300, 1100, 2100]))})
+    ops += sends
+    lose = draw(st.sampled_from([3, 4, 5, 6]))
+    pool = [["x"]] * lose + [["d", 0]] * (9 - lose) + [["d", 6]]
+    heavy = draw(st.lists(st.sampled_from(pool), min_size=30, max_size=200))
+    light = draw(st.lists(st.sampled_from([["d", 0]] * 5 + [["x"], ["d", 4]]), max_size=120))
+    # the handshake and the channel openings run fault-free: the first datagrams of either side are delivered
+    lead = [["d", 0]] * (6 + 2 * nchan)
+    fates = [lead + heavy, lead + light] if side == 0 else [lead + light, lead + heavy]
+    return {"client": draw(st.integers(0, 1)), "start_at": 0, "ops": ops, "fates": fates}
